@@ -112,6 +112,23 @@ def run_case(case):
             return f
         for n in CALLERS:
             getattr(cf, n).add_callback(rec(n))
+        # the application may also act from inside a parameter-value callback (pseudo callback name 'param_update';
+        # it is not a lifecycle callback and is not logged as one)
+        if any(a[0] == 'param_update' for a in case.get('cb_actions', ())):
+            pcount = [0]
+
+            def on_param(name_, value_):
+                for act in case['cb_actions']:
+                    if act[0] == 'param_update' and pcount[0] == (act[2] if len(act) > 2 else 0):
+                        log.append(['act', act[1], S.name()])
+                        try:
+                            if act[1] == 'close':
+                                cf.close_link()
+                        except Exception as ex:      # noqa
+                            log.append(['ev', 'cb_action_raised:' + type(ex).__name__, S.name()])
+                        log.append(['act_end', act[1], S.name()])
+                pcount[0] += 1
+            cf.param.all_update_callback.add_callback(on_param)
 
         # model events: entry into the library's own transition functions
         def wrap(obj, attr, ev):
@@ -150,6 +167,8 @@ def run_case(case):
                     cf.close_link()
                 elif name == 'sync_open':
                     scf.open_link()
+                    # returned normally: at this instant (no hand-over since its own check) it must believe the link open
+                    log.append(['ev', 'sync_open_ok:' + ('open' if scf._is_link_open else 'not_open'), S.name()])
                 elif name == 'sync_close':
                     scf.close_link()
                 elif name == 'sleep':
